@@ -114,6 +114,20 @@ func x2Configs(prop, tier string) []*X2Config {
 				res = append(res, c)
 			}
 		}
+		if prop == "C05" || prop == "C03" {
+			// requests that carry job variables, a different value each time, next to requests without: admission, replacement
+			// and the queue may not depend on what a request carries
+			for _, pc := range baseGrid(graphOne, "one") {
+				if pc.Conc == 2 && !(pc.Replace && pc.QL != 0) {
+					continue
+				}
+				if prop == "C03" && !pc.Replace {
+					continue
+				}
+				c := &X2Config{Name: prop + "/requests-with-variables/" + cfgName(pc), Cfgs: []PipeCfg{pc}, Depth: depth(5, 6), Svar: true, Cancel: prop == "C05", Symmetry: true, AdvSteps: adv, Drain: prop == "C03", Props: props(prop)}
+				res = append(res, c)
+			}
+		}
 		if prop == "C05" {
 			// reloads of the queue limit alone, under both strategies (a limit lowered to 0 while a job waits)
 			for _, repl := range []bool{false, true} {
@@ -207,6 +221,13 @@ func x2Configs(prop, tier string) []*X2Config {
 			mk("conc-1-2", base, c2)
 			mk("conc-2-1", c2, base)
 			mk("ql-2-1", q2, q1)
+			q0 := base
+			q0.QL = 0
+			mk("ql-unset-0", base, q0)
+			mk("ql-2-0", q2, q0)
+			dq := q2
+			dq.Delay = dly
+			mk("delayed-ql-2-to-0", dq, q0)
 		}
 	case "C07":
 		for _, conc := range []int{1, 2} {
@@ -271,6 +292,15 @@ func x2Configs(prop, tier string) []*X2Config {
 		d10.Delay = dly
 		d20 := base
 		d20.Delay = 2 * dly
+		// the queue is switched off (queue_limit 0) while jobs wait - also jobs whose delay timer is pending, after the delay
+		// was dropped together with the queue (a delay needs a queue): the jobs accepted before must still run
+		qz := base
+		qz.QL = 0
+		res = append(res, &X2Config{Name: "C16/ql-to-zero", Cfgs: []PipeCfg{base, qz}, Depth: depth(7, 8), Reload: true, Symmetry: true, AdvSteps: adv, Drain: true, Props: props("C16", "C02", "C03")})
+		dq := base
+		dq.Delay = dly
+		dq.QL = 2
+		res = append(res, &X2Config{Name: "C16/delayed-queue-to-ql-zero", Cfgs: []PipeCfg{dq, qz}, Depth: depth(6, 7), Reload: true, Symmetry: true, AdvSteps: adv, Drain: true, Props: props("C16", "C02", "C03")})
 		res = append(res, &X2Config{Name: "C16/delay-removed", Cfgs: []PipeCfg{d10, base}, Depth: depth(7, 8), Reload: true, Symmetry: true, AdvSteps: adv, Drain: true, Props: props("C16", "C02")})
 		res = append(res, &X2Config{Name: "C16/delay-changed", Cfgs: []PipeCfg{d10, d20}, Depth: depth(7, 8), Reload: true, Symmetry: true, AdvSteps: adv, Drain: true, Props: props("C16", "C02")})
 	}
